@@ -40,15 +40,19 @@ def _run_chunk(harness, header, execs, wd, tag, timeout, env, extra_args):
                 f.write("\n".join(ex) + "\n")
         rc, out, to = vlib.run([harness] + list(extra_args) + [sp, tp], timeout=timeout, env=env)
         evs = [ln for ln in open(tp, errors="replace").read().splitlines() if ln.strip()] if os.path.exists(tp) else []
-        if rc != 0 or to:
-            good = []
-            for ln in evs:                 # a crash can cut an event short: keep well-formed lines only
-                try:
-                    json.loads(ln)
-                    good.append(ln)
-                except ValueError:
-                    pass
-            evs = good
+        # every line must be one JSON object.  A harness that was interrupted in the middle of an event (an exception out of
+        # an observation, a crash) leaves a malformed line: after a crash the cut-off LAST line is dropped, any other malformed
+        # line becomes a "garbled" event that no specification accepts (a rejection, not a tool error)
+        good = []
+        for i, ln in enumerate(evs):
+            try:
+                json.loads(ln)
+                good.append(ln)
+            except ValueError:
+                if (rc != 0 or to) and i == len(evs) - 1:
+                    continue
+                good.append(json.dumps({"op": "garbled", "raw": ln[:200]}))
+        evs = good
         # split events by reset
         groups, cur = [], None
         for ln in evs:
